@@ -31,7 +31,7 @@ ASSUMPTIONS = [
     'address is known before Tor announces its stream, and the connection is only started after its circuit is BUILT',
     'distinct connections have distinct local ports (as sockets do)',
 ]
-BOUNDS = {'quick': {'answers': 7, 'delivery': 'immediate / Deferred / coroutine', 'streams': '1..2', 'via_circuit': '2 connections + 1 unrelated stream, every causally possible complete order of 8 events (enumerated from the causality relation)'},
+BOUNDS = {'quick': {'answers': '10 (known BUILT / non-BUILT / unknown circuit, non-circuit, None, DO_NOT_ATTACH, raises, False, 0, empty string)', 'delivery': 'immediate / Deferred / coroutine', 'streams': '1..2', 'via_circuit': '2 connections + 1 unrelated stream, every causally possible complete order of 8 events (enumerated from the causality relation)'},
           'thorough': {}}
 OUTSIDE = ['PriorityAttacher ordering among sub-attachers (the statement does not define it)', 'streams first seen in a state other than NEW']
 
@@ -108,7 +108,8 @@ class Att(object):
         ans = w.answer
         if ans == 6:
             raise RuntimeError('attacher raises')
-        val = {0: w.built, 1: w.unbuilt, 2: w.foreign, 3: 'not a circuit', 4: None, 5: TorState.DO_NOT_ATTACH}[ans]
+        val = {0: w.built, 1: w.unbuilt, 2: w.foreign, 3: 'not a circuit', 4: None, 5: TorState.DO_NOT_ATTACH,
+               7: False, 8: 0, 9: ''}[ans]     # 7..9: invalid answers that happen to be falsy
         if w.mode == 0:
             return val
         if w.mode == 1:
@@ -179,7 +180,7 @@ def _answers(answer, mode, exit_target, two, later):
                 want = {0: ['ATTACHSTREAM %d 1' % sid], 4: ['ATTACHSTREAM %d 0' % sid]}.get(answer, [])
             if got != want:
                 return R('wrong-attachment-decision-sent', 'stream %d answer %d mode %d: sent %r want %r', sid, answer, mode, got, want)
-        if not exit_target and answer in (1, 2, 3, 6):
+        if not exit_target and answer in (1, 2, 3, 6, 7, 8, 9):
             if len(errors) != len(sids):
                 return R('invalid-attacher-answer-not-reported', 'answer %d: %d reports for %d streams', answer, len(errors), len(sids))
         elif errors:
@@ -205,7 +206,7 @@ def _answers(answer, mode, exit_target, two, later):
     return ''
 
 
-@cond(quick=dict(parts=[{'answer': a} for a in range(7)], budget=100))
+@cond(quick=dict(parts=[{'answer': a} for a in range(10)], budget=100))
 def c09_answers(answer: int, mode: int, exit_target: bool, two: bool, later: bool) -> str:
     """attacher answer kind x delivery mode x stream kind x one/two streams x later events of the same stream"""
     mode = api.pick(mode, 0, 2)
@@ -275,8 +276,9 @@ def _causal_orders():
 ORDERS = _causal_orders()
 
 
-def _via(order):
-    """order: a complete causal order over A1 N1 S1 NU B2|F2 A2 N2 S2 (see _causal_orders)"""
+def _via(order, late_ack=False):
+    """order: a complete causal order over A1 N1 S1 NU B2|F2 A2 N2 S2 (see _causal_orders);
+    late_ack: Tor's acknowledgement of the attacher's SETCONF arrives only after both connect() calls were made"""
     prelude.reset_module_state()
     circuit_mod._get_circuit_attacher.attacher = None
     state, p, t = new_state()
@@ -294,7 +296,11 @@ def _via(order):
     try:
         for i in (1, 2):
             outs[i] = fakes.Outcome(TorCircuitEndpoint(reactor, state, state.circuits[i], eps[i]).connect(object()))
-            pump.run()
+            if not late_ack:
+                pump.run()
+        pump.run()
+        if [ln for ln in pump.lines if ln.startswith('SETCONF')] != ['SETCONF __LeaveStreamsUnattached=1']:
+            return R('attacher-installation-commands-wrong', '%r', pump.lines)
         for code in order:
             done.add(code)
             if code in (A1, A2):
@@ -351,10 +357,11 @@ _CH = (len(ORDERS) + _NP - 1) // _NP
 
 
 @cond(quick=dict(parts=[{'part': i} for i in range(_NP)], budget=150))
-def c09_via_circuit(k: int, part: int) -> str:
+def c09_via_circuit(k: int, part: int, late_ack: bool) -> str:
     """every causally possible complete order (%d of them) of the via-circuit events for two concurrent connections and an unrelated stream"""
     lo = part * _CH
     hi = min(len(ORDERS), lo + _CH) - 1
     k = api.pick(k, lo, hi)
+    late_ack = True if late_ack else False
     with api.no_tracing():
-        return _via(ORDERS[k])
+        return _via(ORDERS[k], late_ack)
